@@ -1058,7 +1058,7 @@ where
 
             // Check on plugin results.
             if let Some(PluginOutput::Deny(error)) = plugin_output {
-                self.reset_buffered_state();
+                self.discard_rejected_batch();
                 error_response(&mut self.write, &error).await?;
                 plugin_output = None;
                 continue;
@@ -1372,14 +1372,14 @@ where
                             Some(PluginOutput::Deny(error)) => {
                                 error_response(&mut self.write, &error).await?;
                                 plugin_output = None;
-                                self.reset_buffered_state();
+                                self.discard_rejected_batch();
                                 continue;
                             }
 
                             Some(PluginOutput::Intercept(result)) => {
                                 write_all(&mut self.write, result).await?;
                                 plugin_output = None;
-                                self.reset_buffered_state();
+                                self.discard_rejected_batch();
                                 continue;
                             }
 
@@ -1975,6 +1975,24 @@ where
                 )))
             }
         }
+    }
+
+    /// Drop a batch a plugin denied or intercepted. The statements its Parse
+    /// messages registered must be forgotten too: they were never created on a
+    /// server, and a later Bind would otherwise prepare and run them unchecked.
+    fn discard_rejected_batch(&mut self) {
+        for data in self.extended_protocol_data_buffer.iter() {
+            if let ExtendedProtocolData::Parse {
+                metadata: Some((parse, _)),
+                ..
+            } = data
+            {
+                self.prepared_statements
+                    .retain(|_, (registered, _)| registered.name != parse.name);
+            }
+        }
+
+        self.reset_buffered_state();
     }
 
     fn reset_buffered_state(&mut self) {
